@@ -11,7 +11,7 @@ def run(pid, tier, seed, replay):
     ctx.trusted.append("the in-process crash (the crash-point hook panics, the log object is abandoned without Close) is validated on every run against a child process killed with SIGKILL at the same crash point: the files left behind must be identical")
     ctx.trusted.append("the verif-tagged crash points sit between the effects of append, roll, truncate, segment replacement, segment deletion, retention and compaction (MANIFEST.hooks); the model's scripts list every effect, the theorems quantify over every prefix of them, the driver can only stop at the named points")
     ctx.coq_cone("Properties/C05.v")
-    nprog = 10 if tier == "quick" else 150
+    nprog = 8 if tier == "quick" else 150
     env = {"VERIF_N": nprog, "VERIF_C05_REPLAYS": 60 if tier == "quick" else 400, "VERIF_C05_CHILD_EVERY": 25 if tier == "quick" else 10}
     if replay:
         rp = json.load(open(replay))
